@@ -26,9 +26,15 @@ AddFail(f) == /\ nfail' = nfail + 1
               /\ (nfail >= MaxFail \/ PrintT("FAILJSON " \o ToJson(f)))
 \* how the prefix of a slot relates to the textual module (for the signature of a failure)
 PClass(c, s, p) == IF p = "" THEN "none" ELSE IF p = Own(c, s.T) THEN "own"
-                   ELSE IF Known(c, s.T, p) THEN "import" ELSE IF p = "zz" THEN "undeclared" ELSE "foreign"
-FailRec(e, what, s, detail) == [id |-> e.id, at |-> l, what |-> what, kind |-> s.kind, place |-> s.place, detail |-> detail]
-NoStmt == [kind |-> "", place |-> ""]
+                   ELSE IF Known(c, s.T, p) THEN "import" ELSE IF p = "zz" THEN "undeclared"
+                   ELSE IF IsSub(s.T) /\ Known(c, ModOf(s.T), p) THEN "parent-only"          \* only the module of the submodule declares it
+                   ELSE IF \E u \in SubUnits(c) : ModOf(u) = s.T /\ Known(c, u, p) THEN "sub-only"   \* only a submodule of the module declares it
+                   ELSE "foreign"
+\* class of the (first) undeclared prefix of a statement
+BadPrefixClass(c, s) == LET i == CHOOSE i \in Slots(Expr(s)) : s.pf[i] # "" /\ ~Known(c, s.T, s.pf[i]) IN PClass(c, s, s.pf[i])
+FailRec(e, what, s, detail) == [id |-> e.id, at |-> l, what |-> what, kind |-> s.kind, place |-> s.place, detail |-> detail,
+                               unit |-> IF IsSub(s.T) THEN "submodule" ELSE "module"]
+NoStmt == [kind |-> "", place |-> "", T |-> ""]
 
 TInit == l = 1 /\ nfail = 0 /\ runs = 0 /\ inst = [cfg |-> "", stmts |-> << >>]
 TReset == /\ l <= Len(Trace) /\ Trace[l].ev = "init" /\ l' = l + 1 /\ runs' = runs + 1
@@ -54,7 +60,7 @@ TEnd == /\ l <= Len(Trace) /\ Trace[l].ev = "end" /\ l' = l + 1 /\ UNCHANGED <<r
                want == Verdict(inst)
                bads == BadStmts(inst)
                b1 == IF bads = {} THEN NoStmt ELSE inst.stmts[CHOOSE i \in bads : TRUE]
-               why(s) == IF ~SyntaxOK(s) THEN "syntax" ELSE "unknown-prefix"
+               why(s) == IF ~SyntaxOK(s) THEN "syntax" ELSE "unknown-prefix:" \o BadPrefixClass(inst.cfg, s)
            IN IF e.verdict \in {"crash", "timeout"} THEN AddFail(FailRec(e, e.verdict, b1, ""))
               ELSE IF want = "error" /\ e.verdict = "ok" THEN AddFail(FailRec(e, "accepted-invalid", b1, why(b1)))
               ELSE IF want = "ok" /\ e.verdict # "ok" THEN AddFail(FailRec(e, "rejected-valid", inst.stmts[1], ""))
